@@ -3,7 +3,7 @@
    consume_class_set_expression (on the expression as written, Spec.vexpr, instead of on the text) and ClassSet::node.
    Strings are lists of code points; `alternatives` keeps the order the parser produces. *)
 From RV Require Import Base.
-From RV.Model Require Import Utf8 CodePointSet Insn Fold IR Optimizer Unfold.
+From RV.Model Require Import Utf8 Indexer CodePointSet Insn Fold IR Optimizer Unfold.
 From RV.Spec Require Import Spec.
 
 Record cset := mkCset { cs_cps : cps; cs_alts : list (list N); cs_mcs : bool }.
@@ -192,3 +192,14 @@ Definition class_node (icase : bool) (e : vexpr) : node :=
   | VNeg e' => cs_node icase true (eval icase e')
   | _ => cs_node icase false (eval icase e)
   end.
+
+(* Parser::char_node (src/parse.rs): the node for a literal character; under i its case variants *)
+Definition char_node (icase unicode : bool) (c : N) : R node :=
+  if negb icase then Ok (NChar c) else
+  match expand_code_point c icase unicode with
+  | [x] => Ok (NChar x)
+  | l => if ((2 <=? length l) && (length l <=? 4))%nat then Ok (NCharSet l) else Err Panic
+  end.
+
+(* the node for `.` *)
+Definition dot_node (dot_all : bool) : node := if dot_all then NMatchAny else NMatchAnyExceptLT.
